@@ -17,6 +17,7 @@ import Y0.Lemmas.CtfComponents
 import Y0.Lemmas.CtfSimplify
 import Y0.Lemmas.CtfFactor
 import Y0.Lemmas.CtfAncSpec
+import Y0.Lemmas.CtfDenValue
 
 namespace Y0.Ctf
 open Relation Y0.MG
@@ -442,19 +443,55 @@ theorem factorisation_shape (g : MG Name) (q : Event) (e : Expr) (ev : Event)
 /-! ### value of the factorisation
 
 -- OPEN: factorisation_den : factorize g q = .ok (e, ev) → Compatible M g → ν.Distinct →
---         (value of  e  under the reading "a -N subscript bound by the enclosing Sum denotes the bound value, every other
---          subscript its literal value; a factor variable takes the bound value of its vertex or the value `ev` gives it")
---         = probEventOpt M ν q
+--         factorisedValue M ν card e ev = probEventOpt M ν q                (ALL queries)
 -- This is FALSE for the model (hence for the code): the returned expression identifies counterfactual variables by
 -- their graph vertex and has only two value symbols per vertex, so it cannot express
---   * a query that needs one vertex in two worlds  (P(Y = y, Y_x = y') -> both ancestors become `Y @ -X`),
---   * a literal subscript `x` when X is also summed out (captured by the summation index),
---   * an added parent subscript `-P` when P is an outcome with value `+P` or `None`.
--- These are the open findings `factorisation-value:{multi-world, literal-bound, outcome-parent-value}`; on all sampled
--- queries outside these three syntactic classes the exact functional-SCM oracle found the value equal to P(query).
--- What is proved: the shape (`factorisation_shape`), i.e. that D_*, the ctf-factor forms and the grouping by
--- c-components are those of Eq. 11-15.  The counterfactual (split) lemma needed for the value (ctf-factors over different
--- districts depend on disjoint noise) is not mechanised. -/
+--   * a query that needs one vertex in two worlds  (P(Y = y, Y_x = y') -> both ancestors become `Y @ -X`)   `multiWorld`,
+--   * a literal subscript `x` when X is also summed out (captured by the summation index)                  `literalBound`,
+--   * an ADDED parent subscript `-P` when P is an outcome with value `+P` or `None`                  `outcomeParentValue`.
+-- These are the open findings `factorisation-value:{multi-world, literal-bound, outcome-parent-value}`.
+-- What is proved (`factorisation_den_partial`): the statement for EVERY query outside these three decidable classes
+-- (`factorizeClasses g q = (false, false, false)`; the harness cross-checks the Lean predicates against the Python key
+-- functions on every run) that has a reading at all (`readableQuery`: no self-intervened variable — the open SIMPLIFY
+-- findings — and no variable with two values for one subscript name), every compatible functional SCM whose pmfs sum
+-- to one and whose variables take their values below `card`, and EVERY reading `ν` of the value symbols (distinct or
+-- not).  The ingredients are mechanised, none is assumed: composition + exclusion restriction along the evaluation
+-- order (`ancestral_iff_factor`), independence of the exogenous blocks of different c-components (`wsum_split_list`,
+-- the counterfactual (split) lemma), marginalisation over the non-outcome ancestors (`wsum_marginals`). -/
+
+/-- **the factorised sum-product equals the probability of the query** (Eq. 11-15), for every query outside the three
+syntactic classes `multiWorld` / `literalBound` / `outcomeParentValue`:
+
+`Σ_{d_* ∖ y_*} Π_j P(c_j)`, read as in Y0/Spec/CtfSem.lean (`factorisedValue`), is `P(⋀ Y_x = y)` in every functional
+SCM compatible with the graph, for every reading of the value symbols. -/
+theorem factorisation_den_partial (g : MG Name) (hg : g.WF) (q : Event) (e : Expr) (ev : Event)
+    (h : factorize g q = .ok (e, ev))
+    (hread : readableQuery q = true)
+    (hclass : factorizeClasses g q = .ok (false, false, false))
+    (M : Fscm.Model) (hM : Fscm.Compatible M g) (hnorm : ∀ pmf ∈ M.noise, pmf.sum = 1)
+    (card : Name → Nat) (hcard : ∀ v pa lat, M.f v pa lat < card v) (ν : Fscm.BaseValues) :
+    factorisedValue M ν card e ev = probEventOpt M ν q :=
+  factorisation_value g hg q e ev h hread hclass M hM hnorm card hcard ν
+
+/-- what the three class flags say, relationally (`D` is the accumulated `An(Y_*)`):
+ * not multi-world: the members of `D` are determined by their vertex;
+ * not literal-bound: a subscript of the query that names a vertex of `D` names an outcome;
+ * not outcome-parent-value: a parent `P` of a member that the member does not intervene on, if it is an outcome,
+   has the value `-P` in every item of the query. -/
+theorem factorizeClasses_false (g : MG Name) (q : Event) (h : factorizeClasses g q = .ok (false, false, false)) :
+    ∃ D, ancestralSet g q = .ok D ∧
+      (∀ a ∈ D, ∀ b ∈ D, a.name = b.name → a = b) ∧
+      (∀ p ∈ q, ∀ i ∈ p.1.ivs, i.name ∈ D.map (·.name) → i.name ∈ q.map (·.1.name)) ∧
+      (∀ w ∈ D, ∀ p, g.DiEdge p w.name → p ∉ subNames w → p ∈ D.map (·.name) →
+        ∀ it ∈ q, it.1.name = p → it.2 = some ⟨p, false⟩) := by
+  unfold factorizeClasses at h
+  simp only [bind, Except.bind] at h
+  cases hD : ancestralSet g q with
+  | error e => rw [hD] at h; cases h
+  | ok D =>
+    rw [hD] at h
+    simp only [pure, Except.pure, Except.ok.injEq, Prod.mk.injEq] at h
+    exact ⟨D, rfl, multiWorld_false D h.1, literalBound_false q D h.2.1, outcomeParentValue_false g q D h.2.2⟩
 
 /-! ## 4. ancestral components (Def. 4.2) -/
 
@@ -818,5 +855,45 @@ example (ν : Fscm.BaseValues) (hν : ν.Distinct) :
   intro p hp i hi
   simp only [List.mem_cons, List.not_mem_nil, or_false] at hp
   rcases hp with rfl | rfl <;> simp only [Option.some.injEq] at hi <;> subst hi <;> rfl
+
+/-! ### the value theorem is not vacuous -/
+
+theorem chainModel_normalised : ∀ pmf ∈ chainModel.noise, pmf.sum = 1 := by
+  intro pmf hp
+  simp only [chainModel, List.mem_cons, List.not_mem_nil, or_false, or_self] at hp
+  subst hp
+  norm_num
+
+theorem chainModel_card : ∀ v pa lat, chainModel.f v pa lat < (fun _ => 2) v := by
+  intro v pa lat
+  exact Nat.mod_lt _ (by decide)
+
+/-- `P(Y_x = y) = P(Y @ -X = y)`  (no summation: `X` is not an ancestor of `Y_x`) and
+`P(Y = y) = Σ_X P(Y @ -X) P(X)` in the chain model, by the theorem -/
+example (ν : Fscm.BaseValues) :
+    factorisedValue chainModel ν (fun _ => 2) (.prob none [{ name := 1, ivs := [⟨0, false⟩] }] [])
+        [({ name := 1, ivs := [⟨0, false⟩] }, some ⟨1, false⟩)] =
+      probEventOpt chainModel ν [({ name := 1, ivs := [⟨0, false⟩] }, some ⟨1, false⟩)] :=
+  factorisation_den_partial chain (wf_fromEdges _ _ _) _ _ _ rfl (by decide) (by decide) chainModel
+    chainModel_compatible chainModel_normalised _ chainModel_card ν
+
+example (ν : Fscm.BaseValues) :
+    factorisedValue chainModel ν (fun _ => 2)
+        (.sum (.prod [.prob none [{ name := 1, ivs := [⟨0, false⟩] }] [], .prob none [{ name := 0 }] []]) [{ name := 0 }])
+        [({ name := 1, ivs := [⟨0, false⟩] }, some ⟨1, true⟩)] =
+      probEventOpt chainModel ν [({ name := 1 }, some ⟨1, true⟩)] :=
+  factorisation_den_partial chain (wf_fromEdges _ _ _) _ _ _ rfl (by decide) (by decide) chainModel
+    chainModel_compatible chainModel_normalised _ chainModel_card ν
+
+-- Example 4.2 / Eq. 16 of the paper, `P(y_x, x')` on Figure 2a, is outside the three classes …
+example : factorizeClasses fig2a [({ name := 1, ivs := [iv 0] }, some ⟨1, false⟩), ({ name := 0 }, some ⟨0, true⟩)] =
+    .ok (false, false, false) := by decide
+-- … and the minimal inputs of the three open findings are inside
+example : factorizeClasses chain [({ name := 1 }, some ⟨1, false⟩), ({ name := 1, ivs := [iv 0] }, some ⟨1, true⟩)] =
+    .ok (true, true, false) := by decide
+example : factorizeClasses (MG.fromEdges [] [(0, 1), (0, 2)] [])
+    [({ name := 1, ivs := [iv 0] }, some ⟨1, false⟩), ({ name := 2 }, some ⟨2, false⟩)] = .ok (false, true, false) := by decide
+example : factorizeClasses chain [({ name := 1 }, some ⟨1, false⟩), ({ name := 0 }, some ⟨0, true⟩)] =
+    .ok (false, false, true) := by decide
 
 end Y0.Ctf
